@@ -148,6 +148,28 @@ def model_check(scratch, module, cfg=None, workers=16, timeout=1800, **kw):
     return r
 
 
+def generate(scratch, module, cfg, timeout=1800, workers=16):
+    """Role B: run a generating model; returns (path of de-duplicated cases.ndjson, tlc result)."""
+    r = model_check(scratch, module, cfg, workers=workers, timeout=timeout, name="gen-" + cfg)
+    raw = os.path.join(r["dir"], "cases.ndjson")
+    if not os.path.exists(raw):
+        raise Infra("generator %s/%s wrote no cases" % (module, cfg))
+    seen, out = set(), os.path.join(r["dir"], "cases.dedup.ndjson")
+    with open(out, "w") as w:
+        for line in open(raw):
+            line = line.strip()
+            if not line or line in seen:
+                continue
+            seen.add(line)
+            v = json.loads(line)
+            if isinstance(v, str):
+                v = json.loads(v)
+            w.write(json.dumps(v) + "\n")
+    log("[gen] %s/%s: %d distinct cases" % (module, cfg, len(seen)))
+    r["cases"] = len(seen)
+    return out, r
+
+
 def judge_shard(args):
     scratch, module, shard_file, idx, xmx, timeout = args
     d = spec_dir(scratch, "judge-%s-%02d" % (module, idx))
